@@ -9,7 +9,7 @@ package main
 //   F0n / F0e (empty file stored with "content":null / "content":[]),
 //   L1, L2 (symlink, two targets), DE (empty dir), D0 (dir{a:F1}),
 //   DB (dir{a:F1,b:L1} = the base's /b: an identical subtree), DBm (DB with
-//   another dir mtime: metadata only);
+//   another dir mtime: metadata only), DT (dir{a:G,b:G}: twin sub-directories, one tree blob);
 // a slot inside a root directory holds one of
 //   absent, F1, F2, F3, F3r, F1d, F1m, F0n, F0e, L1, L2, E (empty dir), G (dir{x:F1}),
 //   G2 (dir{x:F2}).
@@ -112,9 +112,9 @@ func (t *verifC53Tree) key() string {
 	return strings.Join(parts, " ")
 }
 
-var verifC53RootKinds = []string{"absent", "F1", "F2", "F3", "F3r", "F1d", "F1m", "F0n", "F0e", "L1", "L2", "DE", "D0", "DB", "DBm"}
+var verifC53RootKinds = []string{"absent", "F1", "F2", "F3", "F3r", "F1d", "F1m", "F0n", "F0e", "L1", "L2", "DE", "D0", "DB", "DBm", "DT"}
 var verifC53SubKinds = []string{"absent", "F1", "F2", "F3", "F3r", "F1d", "F1m", "F0n", "F0e", "L1", "L2", "E", "G", "G2"}
-var verifC53RootKindsQuick = []string{"absent", "F1", "F2", "F1m", "L1", "D0", "DB"}
+var verifC53RootKindsQuick = []string{"absent", "F1", "F2", "F1m", "L1", "D0", "DB", "DT"}
 var verifC53SubKindsQuick = []string{"absent", "F1", "F3", "F3r", "F1d", "F1m", "L1", "G"}
 
 type verifC53Edit struct {
@@ -147,6 +147,8 @@ func (t *verifC53Tree) rootKind(n string) string {
 			return "DB"
 		case len(c) == 2 && c["a"] == "F1" && c["b"] == "L1" && d.Meta == 1:
 			return "DBm"
+		case len(c) == 2 && c["a"] == "G" && c["b"] == "G" && d.Meta == 0:
+			return "DT"
 		}
 		return "dir"
 	}
@@ -172,6 +174,9 @@ func (t *verifC53Tree) apply(e verifC53Edit) *verifC53Tree {
 			n.Dir[e.Root] = &verifC53Dir{Children: map[string]string{"a": "F1", "b": "L1"}}
 		case "DBm":
 			n.Dir[e.Root] = &verifC53Dir{Meta: 1, Children: map[string]string{"a": "F1", "b": "L1"}}
+		case "DT":
+			// twin sub-directories: /x/a and /x/b are the same tree blob
+			n.Dir[e.Root] = &verifC53Dir{Children: map[string]string{"a": "G", "b": "G"}}
 		default:
 			n.Leaf[e.Root] = e.Kind
 		}
